@@ -1,5 +1,6 @@
 import A2Verif.Lemmas.C06Pascal
 import A2Verif.Lemmas.C06ExDos
+import A2Verif.Lemmas.C06Ident
 import A2Verif.Lemmas.C06Cpm
 import A2Verif.Lemmas.C06ExFat
 import A2Verif.Lemmas.C06ExProdos
@@ -549,5 +550,58 @@ example : (statFree (reload exD)).1 = (statFree exD).1 := by
   exact (reload_observes_same_partial exD_coh exD_closed hs).2.2.1
 
 end Prodos
+
+/-! ## Identification: the saved bytes are found to hold the same file system
+
+`Model/Reload.lean`, namespace `Ident`: the container order of `create_fs_from_bytestream`, the size tests of the four
+flat containers, and the first four tests of `try_img` (DOS 3.x, ProDOS, Pascal, FAT).  DOS 3.x is asked first, so a
+DOS volume is always recognised; every other file system on a 143360-byte image is recognised only if its track 17
+sector 0 (in DOS order) does not look like a VTOC — a genuine ambiguity of a2kit (`vtoc_lookalike_wins`). -/
+namespace Ident
+open A2Verif.Fs.Dos3x A2Verif.Reload.Dos A2Verif.Reload.Ident
+
+/-- C06, identification (DOS 3.x): after `init33` (volume 1 … 254) on a blank DO image and **any** history of operations
+and reloads without another `init`, the saved bytes are identified as DOS 3.3 — with the hint `do`, with `dsk`, and with
+no hint at all. -/
+theorem dos33_history_identified (vol : Nat) (steps : List Reload.Dos.Step)
+    (hn : ∀ v s, Reload.Dos.Step.op (.init v s) ∉ steps)
+    (hi : (init (blank 16) vol 16).1 ≠ .error .panic) {b : Bytes}
+    (hs : save (exec (init (blank 16) vol 16).2 steps).2 = .ok b) :
+    identify .do_ b = some .dos33 ∧ identify .dsk b = some .dos33 ∧ identify .none b = some .dos33 := by
+  have hc0 : Coh (init (blank 16) vol 16).2 := (init_sim (DSim.same (blank_coh 16)) vol 16).2.coh
+  have hh0 : HdrD (init (blank 16) vol 16).2 ∧ (init (blank 16) vol 16).2.c = 16 := by
+    rcases init_hdr (d := blank 16) (Or.inr rfl)
+      (by show (Array.replicate (35 * 16) (List.replicate 256 0)).size = 35 * 16; rw [Array.size_replicate]) vol with h | h
+    · exact absurd h hi
+    · exact h
+  have hc : Coh (exec (init (blank 16) vol 16).2 steps).2 := (exec_sim steps (DSim.same hc0)).2.coh'
+  obtain ⟨hh, hcc⟩ := exec_hdr steps hc0 hh0.1 hn
+  have h16 : (exec (init (blank 16) vol 16).2 steps).2.c = 16 := by
+    rw [hcc]
+    exact hh0.2
+  exact dos_identified_16 hc hh h16 hs
+
+/-- non-vacuity: `init33(254)`, a sparse `put`, a reload, a `delete` — whatever bytes come out are DOS 3.3 without a hint -/
+example {b : Bytes} (hs : save (exec (init (blank 16) 254 16).2 [.op (.put exA), .reload, .op (.delete [72, 105])]).2 = .ok b) :
+    identify .none b = some .dos33 :=
+  (dos33_history_identified 254 _ (by intro v s h; simp at h) Reload.Dos.init16_ok hs).2.2
+
+/-- C06, identification (DOS 3.2 on D13), same statement with the hints `d13` and none -/
+theorem dos_identified_13 {d : Disk} (hc : Coh d) (hh : HdrD d) (h13 : d.c = 13) {b : Bytes} (hs : save d = .ok b) :
+    identify .d13 b = some .dos32 ∧ identify .none b = some .dos32 := Reload.Ident.dos_identified_13 hc hh h13 hs
+
+/-- C06, identification, **the ambiguity**: any 143360-byte image whose bytes 69632 … 69887 pass `test_img_16` is
+identified as DOS 3.3 with `do`, `dsk` and no hint, whatever file system it holds. -/
+theorem vtoc_lookalike_wins {b sec : Bytes} (hlen : b.length = 143360) (hs : bytesAt b 69632 256 = some sec)
+    (ht : vtocTest sec 16 false = true) :
+    identify .do_ b = some .dos33 ∧ identify .dsk b = some .dos33 ∧ identify .none b = some .dos33 :=
+  Reload.Ident.vtoc_lookalike_wins hlen hs ht
+
+/-- C06, identification, the witness of the ambiguity (kernel-evaluated): one byte string is ProDOS under `po` and
+DOS 3.3 under `dsk` and under no hint -/
+theorem ambiguous_image : identify .po ambiguousBytes = some .prodos ∧ identify .dsk ambiguousBytes = some .dos33 ∧
+    identify .none ambiguousBytes = some .dos33 := Reload.Ident.ambiguous_image
+
+end Ident
 
 end A2Verif.C06Reload
